@@ -12,10 +12,12 @@ use std::sync::Mutex;
 
 const NODATA: f64 = -1e10;
 pub const WEIGHTS: [f64; 5] = [0.25, 0.5, 1.0, 1.5, 2.0];
+/// (weight of stream 0, weight of stream 1): the lattice with both streams alike, then two pairs that differ
+const WPAIRS: [(f64, f64); 7] = [(0.25, 0.25), (0.5, 0.5), (1.0, 1.0), (1.5, 1.5), (2.0, 2.0), (0.5, 2.0), (2.0, 0.5)];
 
 pub fn run(tier: Tier) -> i32 {
     let rep = Report::new("C12", tier, "model_checking");
-    rep.set_rule("SCOPE: all corpus windows of 10/20/40/60 consecutive labels at the tier's stride (plus a fixed shuffle of each) x GV weights {0.25,.5,1,1.5,2} (both GV streams set together) x voices V0 (+P1..P3 thorough) and V0 with two other legal GV-off contexts (previous phoneme; relative accent position); trajectories via hook 1; oracle: for every coefficient of each GV stream with >= 100 eligible frames (voiced, label outside the voice's GV-off contexts by the independent glob matcher) |var/(w*gv_mean)-1| <= 0.2 and variance non-decreasing in w; silence-only utterances equal the dense ML solution; low-pass (non-GV) trajectory bit-identical for every weight; distinct = (voice, window, weight); non-trivial = >= 100 eligible frames");
+    rep.set_rule("SCOPE: all corpus windows of 10/20/40/60 consecutive labels at the tier's stride (plus a fixed shuffle of each) x GV weights {0.25,.5,1,1.5,2} on both GV streams alike plus the unequal pairs (.5,2) and (2,.5) x voices V0 (+P1..P3 thorough) and V0 with two other legal GV-off contexts (previous phoneme; relative accent position); trajectories via hook 1; oracle: for every coefficient of each GV stream with >= 100 eligible frames (voiced, label outside the voice's GV-off contexts by the independent glob matcher) |var/(w*gv_mean)-1| <= 0.2 and variance non-decreasing in w; silence-only utterances equal the dense ML solution; low-pass (non-GV) trajectory bit-identical for every weight; distinct = (voice, window, weight); non-trivial = >= 100 eligible frames");
     rep.assume("corpus windows at the stated stride; weights on the 5-point lattice");
     let corpus = labels::corpus();
     // GV-off context variants: the bundled header's own patterns, and two legal variants that look at
@@ -86,13 +88,14 @@ pub fn run(tier: Tier) -> i32 {
         let gv_means: Vec<Vec<f64>> = (0..2).map(|i| models.model_stream(i).gv.map(|g| g.0.iter().map(|m| m.0).collect()).unwrap_or_default()).collect();
         let mut prev_var: Vec<Vec<f64>> = vec![vec![], vec![]];
         let mut lpf0: Option<Vec<Vec<f64>>> = None;
-        for &w in &WEIGHTS {
+        for (pi, &(w0, w1)) in WPAIRS.iter().enumerate() {
             let mut e = base.clone();
-            e.condition.set_gv_weight(0, w);
-            e.condition.set_gv_weight(1, w);
+            e.condition.set_gv_weight(0, w0);
+            e.condition.set_gv_weight(1, w1);
+            let w = w0;
             rep.eval(1);
-            rep.distinct(fnv(format!("{}|{}|{}", k, wi, w).as_bytes()));
-            let rp = json!({"voice": if k == 0 { "V0".to_string() } else if k >= 100 { format!("V0 with GV_OFF_CONTEXT {:?}", gv_off) } else { format!("P{}(V0)", k) }, "labels": u, "gv_weight": w});
+            rep.distinct(fnv(format!("{}|{}|{}|{}", k, wi, w0, w1).as_bytes()));
+            let rp = json!({"voice": if k == 0 { "V0".to_string() } else if k >= 100 { format!("V0 with GV_OFF_CONTEXT {:?}", gv_off) } else { format!("P{}(V0)", k) }, "labels": u, "gv_weight": [w0, w1]});
             let t = match trajectories(&e, u) {
                 Ok(t) => t,
                 Err(er) => {
@@ -106,11 +109,12 @@ pub fn run(tier: Tier) -> i32 {
                 Some(l) => {
                     rep.cmp(1);
                     if !bits_eq2(l, &t.2) {
-                        rep.violation("non-gv-stream", format!("the low-pass stream (no GV) changes with GV weight {}", w), rp.clone());
+                        rep.violation("non-gv-stream", format!("the low-pass stream (no GV) changes with GV weights {:?}", (w0, w1)), rp.clone());
                     }
                 }
             }
             for stream in 0..2usize {
+                let w = if stream == 0 { w0 } else { w1 };
                 let tr = if stream == 0 { &t.0 } else { &t.1 };
                 let elig: Vec<usize> = (0..tr.len()).filter(|f| frame_ok[*f] && (stream == 0 || tr[*f][0] != NODATA)).collect();
                 if elig.len() < 100 {
@@ -137,7 +141,7 @@ pub fn run(tier: Tier) -> i32 {
                         rep.violation("variance-law", format!("stream {} coefficient {}: variance {} over {} eligible frames, want gv_weight {} x GV mean {} = {} (off by {:.1}%)", stream, c, var, elig.len(), w, gv_means[stream][c], target, r * 100.0), rp.clone());
                         break;
                     }
-                    if let Some(pv) = prev_var[stream].get(c) {
+                    if let Some(pv) = prev_var[stream].get(c).filter(|_| pi < WEIGHTS.len()) {
                         if var < *pv * (1.0 - 1e-9) {
                             rep.violation("monotone", format!("stream {} coefficient {}: variance {} at weight {} is below {} at the smaller weight", stream, c, var, w, pv), rp.clone());
                             break;
